@@ -12,6 +12,8 @@
    Response: `x y on` of the first nOut glyph-zone points, or an error word. -/
 import FontVerif.Model.HintStep
 import FontVerif.Model.FtStep
+import FontVerif.Model.HintLoad
+import FontVerif.Model.FtLoad
 namespace FontVerif.Drv.C03Prog
 open FontVerif FontVerif.Tt
 
@@ -86,11 +88,21 @@ def parse (xs : List Int) : Option Job :=
     some ⟨initial bc target ppem scale composite g t (e.map Int.toNat) c, nOut.toNat, o, pr, target⟩
   | _ => none
 
+/-- the last four points of the glyph zone are the phantom points, given as scaled, unrounded values: each
+side derives the (original, current) pair the interpreter starts with (`hintPhantom`). -/
+def phInit (f : List Vec → List Vec × List Vec) (g : List ZPt) : List ZPt :=
+  if g.length < 4 then g else
+  let body := g.take (g.length - 4)
+  let ph := g.drop (g.length - 4)
+  let (o, c) := f (ph.map fun p => p.cur)
+  body ++ (ph.zip (o.zip c)).map fun (p, oc) => { p with org := oc.1, cur := oc.2 }
+
 def skCvt (s : St) : R St := do
   let c ← ofOpt (s.cvt.mapM fun u => HintStep.cvtSetup u s.scale)
-  pure { s with cvt := c }
+  pure { s with cvt := c, glyph := phInit HintLoad.hintPhantom s.glyph }
 
-def ftCvt (s : St) : St := { s with cvt := s.cvt.map fun u => FtStep.cvtSetup u s.scale }
+def ftCvt (s : St) : St :=
+  { s with cvt := s.cvt.map fun u => FtStep.cvtSetup u s.scale, glyph := phInit FtLoad.hintPhantom s.glyph }
 
 /-- prep (if any) then the glyph program, skrifa. -/
 def runSk (j0 : Job) : R St := do
